@@ -73,6 +73,35 @@ def run(rep, tier):
                           {"src": t, "observed": o.brief()})
         elif judge.internal_identifier(d.msg):
             rep.violation("C17/front-end-internal", "message exposes an internal identifier: %r" % d.msg, {"src": t, "observed": o.brief()})
+    # the script path is echoed exactly as given, in the header and in every stack-trace line
+    from .. import printer as P, model as M
+    spell_jobs, spell_meta = [], []
+    for i in range(120 if tier == "quick" else 1500):
+        prog, meta = F.generate(rng.randrange(1 << 40), depth=rng.choice([1, 2, 3]))
+        r = P.render(prog)
+        try:
+            res = M.run(prog, r)
+        except M.ModelLimit:
+            continue
+        if res.ok:
+            continue
+        for ap in ("./t.sd", ".//t.sd", "abs", "../" + "x/" * 0 + "t.sd"):
+            if ap.startswith("../"):
+                continue
+            spell_jobs.append({"src": r.text, "argpath": ap})
+            spell_meta.append((r.text, len(res.error.stack or [])))
+    for (text, nstack), o in zip(spell_meta, core.run_many(spell_jobs)):
+        rep.evaluations += 1
+        rep.process_runs += 1
+        rep.tally("tags", "path-spelling")
+        given = o.trace
+        d = judge.Diag(o.err, path=given)
+        if o.crashed or o.code != 103 or not d.ok:
+            rep.violation("C17/path-as-given", "with the script given as %r the diagnostic does not echo that path in its header / stack-trace lines: %r" % (given, o.err[:300]),
+                          {"src": text, "argv": given, "observed": o.brief()})
+        elif len(d.stack) != nstack:
+            rep.violation("C17/path-as-given-stack", "with the script given as %r the stack trace has %d lines, expected %d" % (given, len(d.stack), nstack),
+                          {"src": text, "argv": given, "observed": o.brief()})
     # which wrapper variants exist in the source, and which did the workload route errors through?
     declared = set()
     try:
